@@ -355,6 +355,7 @@ func runChild(fl *hx.Flags) {
 	defer func() { w.Flush(); fh.Close() }()
 	if fl.From != "" {
 		for _, sc := range hx.ReadCases[tlive.Scenario](fl.From) {
+			tlive.WriteCurrent(fl.Out, sc)
 			enc.Encode(runScenario(sc, fl.Seed))
 		}
 		flushLate(enc)
@@ -370,6 +371,7 @@ func runChild(fl *hx.Flags) {
 	for k := 0; k < maxN && time.Since(t0) < budget; k++ {
 		idx := uint64(*childIdx) + uint64(k)*uint64(*nChild)
 		sc := genLive(fl.Seed, idx, thorough)
+		tlive.WriteCurrent(fl.Out, sc)
 		l := runScenario(sc, fl.Seed^idx)
 		if l.Stop {
 			// the scenario was not run: the previous one left the package in a state that
